@@ -203,6 +203,14 @@ Definition judge_crate (ws : list src_info) (mapped : list str) (c : str) (obser
 Definition unsound_imports (ws : list src_info) (c : str) (observed : list (str * str)) : list (str * str) :=
   filter (fun p => str_eqb (fst p) c || negb (defines ws (fst p) (snd p))) observed.
 
+(* imports that name a CONST of their module (finding C14-glob-const: an effective glob import lists every name of
+   the crate's type table, consts included, under the generated name - TypeScript writes a const under the
+   SCREAMING_SNAKE_CASE of that name, so the module's file need not define the imported identifier) *)
+Definition is_const_of (ws : list src_info) (k n : str) : bool :=
+  existsb (fun it => match it with ItConst c => str_eqb (renamed (cid c)) n | _ => false end) (crate_items ws k).
+Definition const_imports (ws : list src_info) (observed : list (str * str)) : list (str * str) :=
+  filter (fun p => is_const_of ws (fst p) (snd p)) observed.
+
 Definition good_C14 (ws : list src_info) (mapped : list str) (c : str) (observed : list (str * str)) : bool :=
   match unsound_imports ws c observed with
   | _ :: _ => false
